@@ -69,6 +69,7 @@ def gen(rng, tier, index):
         "sparse": bool(index % 2),
         "few": bool(few),
         "xform": gens.pick(rng, forms.PRESENT),
+        "carry": gens.pick(rng, forms.CARRY),
         "past": bool(rng.random() < 0.4),  # the estimator has been fitted before (other kernel, weights, flags)
         "pseed": int(rng.integers(1 << 30)),
     }
@@ -123,6 +124,7 @@ def _run_normalizer(case, j):
     est = _with_a_past(j, case, KernelNormalizer, n, n)
     sw = None if w is None else w.copy()
     j.lib("fit", est.fit, K.copy(), sample_weight=sw)
+    est = forms.carry(est, case.get("carry", "same"), j)
     j.note("normalizer_fits")
     tol = 1e-9 * mag / s
     Tk = np.asarray(est.transform(K.copy()))
@@ -179,6 +181,7 @@ def _run_sparse(case, j):
     est = _with_a_past(j, case, SparseKernelCenterer, n, len(Fa))
     j.lib("fit", est.fit, Knm.copy(), Kmm.copy(), sample_weight=None if w is None else w.copy())
     j.note("sparse_fits")
+    est = forms.carry(est, case.get("carry", "same"), j)
     T = np.asarray(est.transform(Knm.copy()))
     tol = 1e-9 * mag / s
     j.close("transformed training block == (K_nm - weighted column means) / scale", T, Kc / s, tol)
